@@ -7,7 +7,7 @@ use serde::{Deserialize, Serialize};
 use crate::{
     core::{pick_idx, CaseResult, Property, RandomPart, Tier, B},
     seg::{seg_strategy, Seg},
-    streamlab::{brief, diff, run, Flavour, Terminal, FLAVOURS, GREETING},
+    streamlab::{brief, diff, run, Flavour, Terminal, GREETING},
     wire::{self, AResp},
 };
 
@@ -178,8 +178,14 @@ pub fn check_with(case: &Case, all_cuts_up_to: usize) -> CaseResult {
     let mut segs: Vec<Seg> = vec![Seg::Whole, Seg::OneByte];
     segs.extend(case.segs.iter().cloned());
     for seg in &segs {
-        for fl in FLAVOURS {
+        // the plain flavours, and the ones in which every read is preceded by an interruption (transient
+        // WouldBlock / dropped future), the application sends commands of its own in between, and the
+        // connection now and then changes threads: none of this changes what the peer's bytes decode to
+        for fl in crate::streamlab::ALL_FLAVOURS {
             if *seg == Seg::Whole && fl == Flavour::Blocking {
+                continue;
+            }
+            if matches!(fl, Flavour::BlockingInterrupted | Flavour::AsyncCancelled) && *seg == Seg::OneByte && stream.len() > 1500 {
                 continue;
             }
             // byte-sized reads over streams beyond 30 KB only cost time (the buffer logic under
